@@ -13,6 +13,8 @@ if not ok:
     print(log[-3000:])
 print('modelrun:', rcc.build_model())
 print('harness:', rcc.build_harness('full', False))
+for fs, rel in (('nofin', False), ('noweak', False), ('noauto', False), ('full', True)):
+    print('harness:', rcc.build_harness(fs, rel))
 for script in ('leafcheck.py', 'check_containers.py', 'check_derive.py', 'check_layout.py', 'check_forward.py', 'check_threads.py'):
     p = os.path.join(rcc.VERIF, 'tools', script)
     if os.path.exists(p):
